@@ -18,6 +18,8 @@ import (
 	"strings"
 	"sync"
 	"time"
+	acmep "verif/harness/props/c20/acme/payloads"
+	globexp "verif/harness/props/c20/globex/payloads"
 
 	kmip "github.com/ovh/kmip-go"
 	"github.com/ovh/kmip-go/payloads"
@@ -126,6 +128,15 @@ func buildCases(seed uint64, n int) []kase {
 			data = wire.Gen(tree)
 		}
 		add(kase{decode: true, enc: de, target: t, data: data, minor: vminor, desc: fmt.Sprintf("decode %s from %s", t.Name, de)})
+	}
+	// two suppliers' packages, both called "payloads", both with a type called Probe: the same printed type name,
+	// different types. Which of the two a process meets first varies between the histories.
+	probeA := &c02.Target{Name: "acme/payloads.Probe", Tag: 0x540070}
+	probeG := &c02.Target{Name: "globex/payloads.Probe", Tag: 0x540080}
+	for j := 0; j < 6; j++ {
+		e := encsOf[j%4]
+		add(kase{enc: e, target: probeA, value: &acmep.Probe{Unit: fmt.Sprintf("unit-%d", j), Count: int32(j * 7), Flag: j%2 == 0}, minor: -1, desc: "encode acme/payloads.Probe as " + e})
+		add(kase{enc: e, target: probeG, value: &globexp.Probe{Serial: []byte{byte(j), 2, 3}, Level: int64(j) << 33, Label: strings.Repeat("g", j), Extra: int32(-j)}, minor: -1, desc: "encode globex/payloads.Probe as " + e})
 	}
 	return out
 }
